@@ -33,10 +33,7 @@ Print Assumptions C11_undecodable_harmless.
 Theorem C11_never_crashes :
   forall (D L P : Type) (gen : D -> L) enc decode life d0 t0 (ops : list (op D P)),
   forall e, In e (snd (run gen enc decode life true (init d0 t0) ops)) -> ~ is_crash D L P e.
-Proof.
-  intros D L P gen enc decode life d0 t0 ops.
-  apply (repaired_never_crashes D L P gen enc decode life ops (init d0 t0, [])). simpl. tauto.
-Qed.
+Proof. exact repaired_always_answers. Qed.
 Print Assumptions C11_never_crashes.
 
 (* ... and in every history with harmless damage the answers obey C10 (C10_fresh,
